@@ -248,9 +248,9 @@ GRID = {"h_cm": lambda: [(p, h, c, o) for p in range(4) for h in range(13) for c
 def jobs(tier):
     J = []
     for o in range(12):
-        J.append({"module": "c13", "fn": "h_cm", "part": {"outcome": o, "pre": 2}, "timeout": 200 if tier == "quick" else 900, "preflight_budget": 60})
+        J.append({"module": "c13", "fn": "h_cm", "part": {"outcome": o, "pre": 2}, "timeout": 400 if tier == "quick" else 900, "preflight_budget": 60})
     for p in (0, 1, 3):
-        J.append({"module": "c13", "fn": "h_cm", "part": {"pre": p}, "timeout": 200 if tier == "quick" else 900, "preflight_budget": 60})
+        J.append({"module": "c13", "fn": "h_cm", "part": {"pre": p}, "timeout": 400 if tier == "quick" else 900, "preflight_budget": 60})
     return J
 
 
